@@ -616,7 +616,11 @@ func (x *Exec) tokenString(id *big.Int) string {
 	// a token that is no interned string: deterministic, NFKD-stable, whitespace-free text of varied shape
 	n := new(big.Int).Sub(id, big.NewInt(UnkBase))
 	ns := n.String()
-	switch new(big.Int).Mod(n, big.NewInt(6)).Int64() {
+	switch new(big.Int).Mod(n, big.NewInt(8)).Int64() {
+	case 6:
+		return "100%s" + ns + "%d"
+	case 7:
+		return "%" + ns + "%v%"
 	case 1:
 		return strings.Repeat("あ", 15) + ns // > 40 bytes, < 40 runes
 	case 2:
